@@ -22,6 +22,8 @@ SMALL_OVERRIDE = {
     'stiffness': None,
     'support_resistance_with_breaks': None,
 }
+# a second hand-written parameter set where the ORDER of two windows is the reverse of the default one
+OTHER_OVERRIDE = {'damiani_volatmeter': {'vis_std': 20, 'sed_std': 10}}
 SOURCES = ['close', 'high', 'low', 'open', 'volume', 'hl2', 'hlc3', 'ohlc4']
 
 
@@ -56,6 +58,8 @@ def variants(name, f):
     if name in SMALL_OVERRIDE:
         if SMALL_OVERRIDE[name]:
             v['small'] = dict(SMALL_OVERRIDE[name])
+        if name in OTHER_OVERRIDE:
+            v['other'] = dict(OTHER_OVERRIDE[name])
         return v
     wins = [(p, d.default) for p, d in sig.parameters.items()
             if is_window_param(p, name) and isinstance(d.default, int) and not isinstance(d.default, bool) and d.default >= 2]
